@@ -27,6 +27,8 @@ Templates ==
     <<PS(<<88>>), SLet(B, LI(2)), PS(<<89>>)>>,
     <<SGoto(L3)>>, <<SGosub(L3), PS(<<71>>)>>, <<SReturn>>,
     <<SOnGoto(A, <<L2, L3>>), PS(<<78>>)>>,
+    \* an ON..GOTO that may fall through as the last statement of its line (of the program)
+    <<PS(<<74>>), SOnGoto(B, <<L1>>)>>,
     <<SOnGosub(A, <<L3>>), PS(<<79>>)>>,
     <<SIf(Bin("lt", A, LI(2)), <<PS(<<84>>)>>, <<PS(<<70>>)>>)>>,
     <<SIfShort(Bin("lt", A, LI(2)), <<SGoto(L1)>>, <<>>)>>,
